@@ -146,12 +146,12 @@ theorem tabOK_add_new (inst : Inst) (e : Elt) (ms : List Memo) (ht : TabOK inst)
 /-- table and dictionary after `_add` over an existing name when the old component is detached -/
 theorem tabOK_add_override (inst : Inst) (e old : Elt) (t2 : NodeTab) (ms : List Memo) (ht : TabOK inst)
     (ho : findElt inst.elts e.name = some old)
-    (hd : detachAll (attachElt inst.tab e) old.nodes old.counted = .inr t2) :
+    (keep : Bool) (hd : detachAll keep (attachElt inst.tab e) old.nodes old.counted = .inr t2) :
     TabOK ⟨upsert inst.elts e, t2, ms⟩ := by
   intro n
   obtain ⟨h1, h2⟩ := ht n
-  have c1 := detachAll_count _ _ _ _ hd n
-  have d1 := detachAll_deg _ _ _ _ hd n
+  have c1 := detachAll_count _ _ _ _ _ hd n
+  have d1 := detachAll_deg _ _ _ _ _ hd n
   have c2 := upsert_old_count _ _ _ n ho
   have d2 := upsert_old_deg _ _ _ n ho
   rw [attachElt_count] at c1
@@ -165,12 +165,12 @@ theorem tabOK_add_override (inst : Inst) (e old : Elt) (t2 : NodeTab) (ms : List
 
 theorem tabOK_remove (inst : Inst) (nm : String) (e : Elt) (t2 : NodeTab) (ms : List Memo) (ht : TabOK inst)
     (hu : uniqueNames inst.elts) (ho : findElt inst.elts nm = some e)
-    (hd : detachAll inst.tab e.nodes e.counted = .inr t2) :
+    (keep : Bool) (hd : detachAll keep inst.tab e.nodes e.counted = .inr t2) :
     TabOK ⟨eraseName inst.elts nm, t2, ms⟩ := by
   intro n
   obtain ⟨h1, h2⟩ := ht n
-  have c1 := detachAll_count _ _ _ _ hd n
-  have d1 := detachAll_deg _ _ _ _ hd n
+  have c1 := detachAll_count _ _ _ _ _ hd n
+  have d1 := detachAll_deg _ _ _ _ _ hd n
   have c2 := eraseName_count _ _ _ n ho hu
   have d2 := eraseName_deg _ _ _ n ho hu
   simp only [contribC, contribD] at c2 d2
@@ -212,12 +212,12 @@ theorem inv_add (hc : CfgOK cfg G) {w : World} (h : Inv cfg G w) (i : Nat) (e : 
         · exact h1
         · rw [helts, ho] at h1; cases h1
       simp only [ho, hdet, if_true] at hok ⊢
-      cases hd : detachAll (attachElt inst.tab e) old.nodes old.counted with
+      cases hd : detachAll cfg.keepConnectedNode (attachElt inst.tab e) old.nodes old.counted with
       | inl t2 => simp [hd] at hok
       | inr t2 =>
         simp only [hd, hinv, Bool.and_self, if_true] at hok ⊢
         rw [invalidate_set w i _ hlt]
-        exact inv_mutated hc h i inst hi _ _ _ (tabOK_add_override inst e old t2 _ ht ho hd) (uniqueNames_upsert _ _ hu)
+        exact inv_mutated hc h i inst hi _ _ _ (tabOK_add_override inst e old t2 _ ht ho _ hd) (uniqueNames_upsert _ _ hu)
 
 theorem inv_remove (hc : CfgOK cfg G) {w : World} (h : Inv cfg G w) (i : Nat) (nm : String)
     (hadm : (Op.remove i nm).admissible cfg w) (hok : (remove cfg w i nm).2 = true) :
@@ -240,11 +240,11 @@ theorem inv_remove (hc : CfgOK cfg G) {w : World} (h : Inv cfg G w) (i : Nat) (n
                                           lru := clearLru cfg w.lru, clock := w.clock } := by
         simp [invalidate, hi]
       simp only [ho, hinv, if_true, hinvd, List.getElem?_set, hlt] at hok ⊢
-      cases hd : detachAll inst.tab e.nodes e.counted with
+      cases hd : detachAll cfg.keepConnectedNode inst.tab e.nodes e.counted with
       | inl t2 => simp [hd] at hok
       | inr t2 =>
         simp only [hd, List.set_set] at hok ⊢
-        exact inv_mutated hc h i inst hi _ _ _ (tabOK_remove inst nm e t2 _ ht hu ho hd) (uniqueNames_eraseName _ _ hu)
+        exact inv_mutated hc h i inst hi _ _ _ (tabOK_remove inst nm e t2 _ ht hu ho _ hd) (uniqueNames_eraseName _ _ hu)
 
 /-! ### reading memoised members -/
 
